@@ -17,5 +17,6 @@ sys.path.insert(0, os.path.join(os.getcwd(), "lib"))
 import common
 common.build_runner()
 common.build_harness()
+common.build_harness_rt()
 print("setup ok")
 PY
